@@ -184,6 +184,11 @@ func (d *c20Deps) addressFields(T *types.Named) (map[*types.Var]bool, []string) 
 		if fn == nil || fn.Blocks == nil {
 			continue
 		}
+		// the type's public integer view (ToUInt32, ToUInt128 …); unexported helpers such as
+		// a netmask() built from the prefix length are not views of the address
+		if !obj.Exported() {
+			continue
+		}
 		sig := fn.Signature
 		if sig.Params().Len() != 0 || sig.Results().Len() != 1 {
 			continue
